@@ -176,3 +176,75 @@ Proof.
   - intros inp. unfold g_acquire. rewrite Hacq. unfold g_release, g_new. rewrite Hnew.
     destruct Hrel as [-> | ->]; cbn; discriminate.
 Qed.
+
+(* ---------------- ownership discipline of buffers, per function ---------------- *)
+(* what a function does, in source order, with a pooled buffer it holds (regenerated from the
+   source by gen/c08_poolfacts.go): uses (method calls, passing it on, slices obtained by
+   Bytes()), Free, returning it to the caller, and putting the encoder that points to it *)
+Inductive bev := BUse | BFree | BRet | BOwnerPut.
+Record ownfact := { of_fn : string; of_buf : string; of_events : list bev }.
+
+(* Live -> (Use)* -> Free            : freed once, never touched afterwards
+   Live -> (Use)* -> OwnerPut -> Ret : handed to the caller; the pooled owner no longer points to it
+   a Free after the owner was put would go through a nil pointer *)
+Inductive bstate := SLive | SDetached | SFreed | SReturned.
+Definition bstep (s : bstate) (e : bev) : option bstate :=
+  match s, e with
+  | SLive, BUse => Some SLive
+  | SLive, BFree => Some SFreed
+  | SLive, BRet => Some SReturned
+  | SLive, BOwnerPut => Some SDetached
+  | SDetached, BRet => Some SReturned
+  | SDetached, _ => None
+  | SFreed, BOwnerPut => Some SFreed
+  | SFreed, _ => None
+  | SReturned, _ => None
+  end.
+Fixpoint brun (s : bstate) (l : list bev) : option bstate :=
+  match l with
+  | [] => Some s
+  | e :: r => match bstep s e with Some s' => brun s' r | None => None end
+  end.
+Definition disc_ok (l : list bev) : bool :=
+  match brun SLive l with Some SFreed | Some SReturned => true | _ => false end.
+
+Lemma brun_freed_tail : forall post, (exists s, brun SFreed post = Some s) ->
+  ~ In BUse post /\ ~ In BFree post /\ ~ In BRet post.
+Proof.
+  induction post as [|e post IH]; intros [s Hs]; [repeat split; intros []|].
+  cbn [brun] in Hs. destruct e; cbn [bstep] in Hs; try discriminate.
+  destruct (IH (ex_intro _ s Hs)) as [A [B C]].
+  repeat split; intros [H|H]; try discriminate; auto.
+Qed.
+
+Lemma brun_app s a b : brun s (a ++ b)%list = match brun s a with Some s' => brun s' b | None => None end.
+Proof.
+  revert s. induction a as [|e a IH]; intros s; cbn [app brun]; [reflexivity|].
+  destruct (bstep s e); [apply IH|reflexivity].
+Qed.
+
+(* the discipline the checker enforces: once freed, a buffer is never used, freed or returned
+   again, and a buffer that is not freed is returned to the caller *)
+Theorem disc_ok_sound l : disc_ok l = true ->
+  (forall pre post, l = (pre ++ BFree :: post)%list -> ~ In BUse post /\ ~ In BFree post /\ ~ In BRet post) /\
+  (In BFree l \/ In BRet l).
+Proof.
+  unfold disc_ok. intros H. split.
+  - intros pre post ->. rewrite brun_app in H.
+    destruct (brun SLive pre) as [s|] eqn:Hpre; [|discriminate].
+    cbn [brun] in H. destruct s; cbn [bstep] in H; try discriminate.
+    apply brun_freed_tail. destruct (brun SFreed post) as [s'|]; [eexists; reflexivity|discriminate].
+  - assert (G : forall l s, brun s l = Some SFreed \/ brun s l = Some SReturned ->
+              s = SFreed \/ s = SReturned \/ In BFree l \/ In BRet l).
+    { clear. induction l as [|e l IH]; intros s Hs; cbn [brun] in Hs.
+      - destruct Hs as [Hs|Hs]; injection Hs as ->; auto.
+      - destruct (bstep s e) as [s'|] eqn:E; [|destruct Hs; discriminate].
+        destruct (IH s' Hs) as [->|[->|[Hi|Hi]]].
+        + destruct s, e; cbn in E; try discriminate; auto; right; right; left; left; reflexivity.
+        + destruct s, e; cbn in E; try discriminate; right; right; right; left; reflexivity.
+        + right; right; left; right; exact Hi.
+        + right; right; right; right; exact Hi. }
+    destruct (brun SLive l) as [[| | |]|] eqn:E; try discriminate.
+    + destruct (G l SLive (or_introl E)) as [X|[X|X]]; try discriminate; exact X.
+    + destruct (G l SLive (or_intror E)) as [X|[X|X]]; try discriminate; exact X.
+Qed.
